@@ -387,6 +387,8 @@ func compatCmd(a Args) {
 	boundsMatrix(s)
 	enumKindMatrix(s)
 	enumDisplayMatrix(s)
+	oneOfDiscMatrix(s)
+	refNameMatrix(s)
 	for i := 0; i < n/20+2; i++ {
 		recursiveGroup(s, g)
 	}
@@ -768,3 +770,184 @@ func floatRangeMatrix(s *compatSink) {
 }
 
 func fp(f float64) *float64 { return &f }
+
+// oneOfDiscMatrix: one-of schemas compared with one-of schemas on every constructible combination of
+// discriminator field name, inlining flag and member-declared fields (members may declare the OTHER
+// side's discriminator name as an ordinary property). Decided from the declaration alone: a producer
+// one-of on another discriminator field is never compatible; identical one-ofs are.
+func oneOfDiscMatrix(s *compatSink) {
+	names := []string{"kind", "type"}
+	type side struct {
+		disc    string
+		inlined bool
+		extra   []string // ordinary properties the members declare besides x
+	}
+	var sides []side
+	for _, d := range names {
+		for _, inl := range []bool{false, true} {
+			for _, extra := range [][]string{nil, {"kind"}, {"type"}, {"kind", "type"}} {
+				ok := true
+				has := false
+				for _, e := range extra {
+					if e == d {
+						has = true
+					}
+				}
+				// the library refuses members that declare a non-inlined discriminator, and wants the
+				// inlined one declared
+				if inl != has {
+					ok = false
+				}
+				if ok {
+					sides = append(sides, side{d, inl, extra})
+				}
+			}
+		}
+	}
+	mk := func(sd side, intKeys bool) *hx.Ty {
+		t := &hx.Ty{T: "oneOf", IntKey: intKeys, Disc: sd.disc, Inlined: sd.inlined}
+		for i, k := range []string{"a", "b"} {
+			key := k
+			dt := &hx.Ty{T: "str"}
+			if intKeys {
+				key = strconv.Itoa(i)
+				dt = &hx.Ty{T: "int"}
+			}
+			m := &hx.Ty{T: "obj", ID: "M" + k, Props: []hx.NamedProp{{Name: "x", P: &hx.Prop{Ty: &hx.Ty{T: "int"}}}}}
+			for _, e := range sd.extra {
+				m.Props = append(m.Props, hx.NamedProp{Name: e, P: &hx.Prop{Ty: dt}})
+			}
+			t.Members = append(t.Members, hx.Member{Key: key, Ty: m})
+		}
+		return t
+	}
+	embed := []func(*hx.Ty) *hx.Ty{
+		func(t *hx.Ty) *hx.Ty { return t },
+		func(t *hx.Ty) *hx.Ty {
+			return &hx.Ty{T: "obj", ID: "E", Props: []hx.NamedProp{{Name: "e", P: &hx.Prop{Ty: t}}}}
+		},
+		func(t *hx.Ty) *hx.Ty { return &hx.Ty{T: "list", Item: t} },
+	}
+	for _, intKeys := range []bool{false, true} {
+		for _, c := range sides {
+			for _, p := range sides {
+				for _, em := range embed {
+					self, other := em(mk(c, intKeys)), em(mk(p, intKeys))
+					r, id := s.emitCompat(self, other, "oneof-disc", false)
+					s.stats["oneof-disc:"+r.R]++
+					switch {
+					case r.R == "panic":
+						s.finding(Finding{Prop: "C15", What: "ValidateCompatibility panicked on one-of schemas: " + r.Msg, Cases: []int{id}, Schema: self})
+					case c.disc != p.disc && r.R == "ok":
+						s.finding(Finding{Prop: "C15", What: "a one-of on another discriminator field was accepted", Cases: []int{id}, Schema: self,
+							Detail: []string{fmt.Sprintf("consumer on %q (inlined=%v, members declare %v), producer on %q (inlined=%v, members declare %v)",
+								c.disc, c.inlined, c.extra, p.disc, p.inlined, p.extra)}})
+					case c.disc == p.disc && c.inlined == p.inlined && len(c.extra) == len(p.extra) && r.R != "ok":
+						s.finding(Finding{Prop: "C15", What: "a one-of schema is rejected against an identical one", Cases: []int{id}, Schema: self, Detail: []string{r.Msg}})
+					}
+				}
+			}
+		}
+	}
+}
+
+// refNameMatrix (C14): schema-versus-schema compatibility must not change when references are
+// replaced by the objects they denote. Two scopes use the same object IDs for objects of different
+// shape (an ID identifies an object only within its scope); the reference sits below a property, a
+// list, a map, a one-of member, or in a nested scope that shadows the outer object of that name.
+// The verdict with references must equal the verdict with the references inlined.
+func refNameMatrix(s *compatSink) {
+	leaf := func(kind string, extra bool) *hx.Ty {
+		t := &hx.Ty{T: "obj", ID: "B", Props: []hx.NamedProp{{Name: "x", P: &hx.Prop{Ty: &hx.Ty{T: kind}}}}}
+		if extra {
+			t.Props = append(t.Props, hx.NamedProp{Name: "y", P: &hx.Prop{Ty: &hx.Ty{T: "bool"}, Required: true}})
+		}
+		return t
+	}
+	type pos struct {
+		name string
+		at   func(b *hx.Ty) *hx.Ty // the type of root.p given the type standing for B
+	}
+	positions := []pos{
+		{"property", func(b *hx.Ty) *hx.Ty { return b }},
+		{"list item", func(b *hx.Ty) *hx.Ty { return &hx.Ty{T: "list", Item: b} }},
+		{"map value", func(b *hx.Ty) *hx.Ty { return &hx.Ty{T: "map", K: &hx.Ty{T: "str"}, V: b} }},
+		{"list of lists", func(b *hx.Ty) *hx.Ty { return &hx.Ty{T: "list", Item: &hx.Ty{T: "list", Item: b}} }},
+		{"one-of member", func(b *hx.Ty) *hx.Ty {
+			return &hx.Ty{T: "oneOf", Disc: "kind", Members: []hx.Member{{Key: "b", Ty: b},
+				{Key: "c", Ty: &hx.Ty{T: "obj", ID: "C", Props: []hx.NamedProp{{Name: "z", P: &hx.Prop{Ty: &hx.Ty{T: "int"}}}}}}}}
+		}},
+	}
+	scope := func(p pos, b *hx.Ty, refs bool) *hx.Ty {
+		var bt *hx.Ty = b
+		if refs {
+			bt = &hx.Ty{T: "ref", ID: "B"}
+		}
+		root := &hx.Ty{T: "obj", ID: "A", Props: []hx.NamedProp{{Name: "p", P: &hx.Prop{Ty: p.at(bt)}}, {Name: "n", P: &hx.Prop{Ty: &hx.Ty{T: "int"}}}}}
+		objs := []hx.NamedObj{{ID: "A", Ty: root}}
+		if refs {
+			objs = append(objs, hx.NamedObj{ID: "B", Ty: b})
+		}
+		return &hx.Ty{T: "scope", Root: "A", Objs: objs}
+	}
+	shapes := []*hx.Ty{leaf("int", false), leaf("str", false), leaf("int", true), leaf("bool", false)}
+	for _, p := range positions {
+		for i, bs := range shapes {
+			for j, bo := range shapes {
+				withRefs, idR := s.emitCompat(scope(p, bs, true), scope(p, bo, true), "ref-names", false)
+				inlined, idI := s.emitCompat(scope(p, bs, false), scope(p, bo, false), "ref-names:inlined", false)
+				s.stats["ref-names:"+withRefs.R]++
+				if withRefs.R != inlined.R {
+					s.finding(Finding{Prop: "C14", What: "schema-versus-schema compatibility differs between the tree with references and the tree with the references inlined",
+						Cases: []int{idR, idI}, Schema: scope(p, bs, true),
+						Detail: []string{fmt.Sprintf("reference below %s; shapes %d vs %d", p.name, i, j), "with references: " + withRefs.JSON(), "inlined: " + inlined.JSON()}})
+				}
+				// the same with the producer's object inlined only (reference against object)
+				mixed, idM := s.emitCompat(scope(p, bs, true), scope(p, bo, false), "ref-names:mixed", false)
+				if mixed.R != inlined.R {
+					s.finding(Finding{Prop: "C14", What: "schema-versus-schema compatibility differs between a reference and the object it denotes",
+						Cases: []int{idM, idI}, Schema: scope(p, bs, true),
+						Detail: []string{fmt.Sprintf("reference below %s; shapes %d vs %d", p.name, i, j), "reference vs object: " + mixed.JSON(), "inlined: " + inlined.JSON()}})
+				}
+			}
+		}
+	}
+	// a nested scope whose own B shadows the outer B
+	nested := func(outerB, innerB *hx.Ty, refs bool) *hx.Ty {
+		var ib *hx.Ty = innerB
+		if refs {
+			ib = &hx.Ty{T: "ref", ID: "B"}
+		}
+		innerRoot := &hx.Ty{T: "obj", ID: "I", Props: []hx.NamedProp{{Name: "q", P: &hx.Prop{Ty: ib}}}}
+		innerObjs := []hx.NamedObj{{ID: "I", Ty: innerRoot}}
+		if refs {
+			innerObjs = append(innerObjs, hx.NamedObj{ID: "B", Ty: innerB})
+		}
+		inner := &hx.Ty{T: "scope", Root: "I", Objs: innerObjs}
+		var ob *hx.Ty = outerB
+		if refs {
+			ob = &hx.Ty{T: "ref", ID: "B"}
+		}
+		root := &hx.Ty{T: "obj", ID: "A", Props: []hx.NamedProp{{Name: "sub", P: &hx.Prop{Ty: inner}}, {Name: "own", P: &hx.Prop{Ty: ob}}}}
+		objs := []hx.NamedObj{{ID: "A", Ty: root}}
+		if refs {
+			objs = append(objs, hx.NamedObj{ID: "B", Ty: outerB})
+		}
+		return &hx.Ty{T: "scope", Root: "A", Objs: objs}
+	}
+	for i, so := range shapes {
+		for j, si := range shapes {
+			for k, po := range shapes {
+				if k > 1 {
+					continue
+				}
+				withRefs, idR := s.emitCompat(nested(so, si, true), nested(po, shapes[(j+k)%len(shapes)], true), "ref-names:nested", false)
+				inlined, idI := s.emitCompat(nested(so, si, false), nested(po, shapes[(j+k)%len(shapes)], false), "ref-names:nested-inlined", false)
+				if withRefs.R != inlined.R {
+					s.finding(Finding{Prop: "C14", What: "schema-versus-schema compatibility differs between the tree with references and the tree with the references inlined (inner scope shadowing an outer object)",
+						Cases: []int{idR, idI}, Schema: nested(so, si, true), Detail: []string{fmt.Sprintf("shapes %d/%d vs %d", i, j, k), withRefs.JSON(), inlined.JSON()}})
+				}
+			}
+		}
+	}
+}
